@@ -36,6 +36,8 @@ def transforms(rng, base, quick):
         out = rng.sample(out, 14)
     out.append(('dup', rng.randrange(n)))
     out.append(('foreign', rng.randint(1, 4)))
+    if base['cfg'].get('norm') != 'raw':
+        out.append(('foreign_nan', 1))
     for cs in range(1, n + 2):
         out.append(('chunk', cs))
     return out
@@ -63,6 +65,21 @@ def apply(rng, base, t):
             s[k] = base[k][:pos] + [[float(v) for v in row] for row in extra] + base[k][pos:]
         s['cells'] = base['cells'][:pos] + [90 + i for i in range(arg)] + base['cells'][pos:]
         ids = base['cells']
+    elif kind == 'foreign_nan':
+        # a foreign cell with missing values (NaN) next to the cells of the base query
+        Qf = [[float(v) for v in row] for row in base.get('Qf', base['Q'])]
+        bad = [float(rng.randint(0, 4)) for _ in base['qgenes']]
+        for j in rng.sample(range(len(bad)), max(1, len(bad) // 2)):
+            bad[j] = float('nan')
+        pos = rng.randint(0, len(base['cells']))
+        s['Qf'] = Qf[:pos] + [bad] + Qf[pos:]
+        s['Q'] = base['Q'][:pos] + [[0 for _ in base['qgenes']]] + base['Q'][pos:]
+        s['cells'] = base['cells'][:pos] + [97] + base['cells'][pos:]
+        ids = base['cells']
+        s['cfg']['chunk'] = len(s['cells'])          # all cells in one batch
+        s['cfg']['P'] = 1
+        s['cfg']['enc'] = 'dense'
+        return s, ids
     else:
         s['cfg']['chunk'] = arg
         s['cfg']['P'] = rng.randint(1, 3)
@@ -114,7 +131,13 @@ def run(ctx):
             if len(base['Q']) > 2:
                 base['Q'][1] = list(base['Q'][0])
             safe_markers(rng, base)
+            if b % 3 == 0 and len(base['Q']) > 2:
+                base['Q'][2] = [0] * len(base['qgenes'])        # a cell that is constant on every marker set
             mode = b % 3
+            if mode == 2 and len(base['cells']) < 4:
+                extra = 4 - len(base['cells'])
+                base['cells'] = base['cells'] + [70 + i for i in range(extra)]
+                base['Q'] = base['Q'] + [[rng.randint(0, 9) for _ in base['qgenes']] for _ in range(extra)]
             if mode == 1:
                 # raw counts: every chunk must be normalised (not only the first one)
                 base['cfg']['norm'] = 'raw'
@@ -130,6 +153,9 @@ def run(ctx):
                 if len(Qf) > 2:
                     Qf[1] = list(Qf[0])
                 Qf[-1] = [float(rng.choice([0, 40])) for _ in base['qgenes']]
+                if len(Qf) > 3:
+                    # flat to within 1e-17 around 1e-6, but not constant
+                    Qf[2] = [1e-6 + 1e-17 * rng.randint(0, 9) for _ in base['qgenes']]
                 base['Qf'] = Qf
                 base['cfg']['chunk'] = 10        # base: all cells in one batch
                 base['cfg']['P'] = 1
@@ -185,6 +211,22 @@ def run(ctx):
             keep = [c for c in ids if c not in und]
             und_total += len(ids) - len(keep)
             image = r['recs']
+            # a cell left open by ties still has a determined correlation at the top level of the run: with
+            # factor 1 every iteration sees the same genes, so whoever wins does so with the same best value
+            skipped = [c for c in ids if c in und]
+            if skipped and not cur['scn']['cfg'].get('flatten') and cur['scn']['cfg'].get('drop') is None:
+                def top_only(recs):
+                    out_ = []
+                    for x in recs:
+                        if x['id'] in skipped and x['lv']:
+                            t0 = x['lv'][0]
+                            out_.append({'id': x['id'], 'lv': [{'lev': t0['lev'], 'a': 0, 'k': 0, 'ru': [], 'direct': True,
+                                                                'f': [], 'q': [t0['q'][0]]}]})
+                    return out_
+                pairs.append({'rel': 'join_close', 'tree': cur['scn']['tree'], 'base': top_only(cur['recs']),
+                              'image': top_only(image), 'levels': cur['scn']['tree']['hier'][:1], 'ids': skipped,
+                              't': (t[0] + ':top-correlation-of-tied-cells', t[1]), 'b': cur['scn'], 'i': r['scn'],
+                              'scheme': r['scheme']})
             if t[0] == 'dup':
                 # the duplicate (id 99) must equal its original
                 orig = cur['scn']['cells'][t[1]]
